@@ -1,13 +1,223 @@
-// Reference-model oracles of EX-A families.
+// Reference-model oracles of the EX-A families. They use only what the
+// harness itself recorded (transmissions, packets, tokens, public callback
+// streams); none of them reads c-ares internals.
 #include "exa_families.h"
+#include <algorithm>
+#include <stdarg.h>
+
 namespace exa {
-void oracle_c05_provenance(World &, const History &) {}
-void oracle_c06_retry(World &, const History &) {}
+
+static std::string fmt(const char *f, ...)
+{
+  char    b[1024];
+  va_list ap;
+  va_start(ap, f);
+  vsnprintf(b, sizeof b, f, ap);
+  va_end(ap);
+  return b;
+}
+
+static std::string norm_name(std::string n)
+{
+  n = vdns::lower(n);
+  if (n.empty() || n.back() != '.') n += '.';
+  return n;
+}
+
+static const Packet *pkt(const World &w, int serial)
+{
+  if (serial < 1 || serial > (int)w.packets.size()) return nullptr;
+  return &w.packets[(size_t)serial - 1];
+}
+
+// ---------------------------------------------------------------------------
+// C05: only an authentic, matching response may supply data
+// ---------------------------------------------------------------------------
+void oracle_c05_provenance(World &w, const History &)
+{
+  for (auto &t : w.toks) {
+    if (t.count == 0) continue;
+    std::vector<int> ms = t.markers;
+    if (t.neg_marker) ms.push_back(t.neg_marker);
+    for (int m : ms) {
+      const Packet *p = pkt(w, m);
+      if (!p) {
+        w.violate("C05:provenance:unknown-marker", fmt("token %d delivered data with marker %d that no injected packet carries (invented data)", t.id, m));
+        continue;
+      }
+      if (p->forged) {
+        const char *mut = "?";
+        for (auto &l : w.obs) {
+          std::string key = fmt("inject pkt#%d FORGED", p->serial);
+          if (l.find(key) != std::string::npos) {
+            for (int i = 0; i < FG_NKINDS; i++)
+              if (l.find(std::string(" ") + fg_names[i] + " ") != std::string::npos) mut = fg_names[i];
+          }
+        }
+        w.violate(std::string("C05:provenance:forged-packet-accepted:") + mut,
+                  fmt("token %d (req %d) was answered with data from forged packet #%d (%s)", t.id, t.req, p->serial, mut));
+        continue;
+      }
+      bool from_cache = t.tx_at_done == t.tx_at_issue;
+      if (from_cache) {
+        // must have been accepted earlier by a request that did go to the network
+        bool earlier = false;
+        for (auto &o : w.toks)
+          if (o.id != t.id && o.count && o.t_done <= t.t_done && o.tx_at_done > o.tx_at_issue &&
+              (std::find(o.markers.begin(), o.markers.end(), m) != o.markers.end() || o.neg_marker == m))
+            earlier = true;
+        if (!earlier && w.cfg->qcache_max_ttl > 0) {
+          // served with zero transmissions from data nobody received before: only legal for hosts/literal answers, which carry no marker
+          w.violate("C05:provenance:cache-entry-without-accepted-response", fmt("token %d was served without traffic from packet #%d which no earlier request had been answered with", t.id, m));
+        }
+        continue;
+      }
+      // (i) the packet must have arrived on the socket carrying the query's latest transmission
+      if (p->for_tx < 0 || p->for_tx >= (int)w.txs.size()) continue;
+      const Transmission &tx = w.txs[(size_t)p->for_tx];
+      int latest = -1;
+      for (int i = 0; i < t.tx_at_done && i < (int)w.txs.size(); i++)
+        if (w.txs[(size_t)i].q.ok && w.txs[(size_t)i].q.id == tx.q.id) latest = i;
+      if (latest >= 0 && w.txs[(size_t)latest].fd != p->on_fd) {
+        w.violate("C05:provenance:reply-on-previous-connection-accepted",
+                  fmt("token %d accepted reply packet #%d that arrived on descriptor %d, but the query (id %u) was last transmitted on descriptor %d (tx#%d)", t.id,
+                      p->serial, p->on_fd, tx.q.id, w.txs[(size_t)latest].fd, latest));
+      }
+      if (p->src_server != tx.server) w.violate("C05:provenance:wrong-source-accepted", fmt("token %d accepted packet #%d from a foreign source address", t.id, p->serial));
+      w.W("c05_authentic_delivery");
+    }
+  }
+}
+
+// ---------------------------------------------------------------------------
+// C06: bounded retries, timeout window
+// ---------------------------------------------------------------------------
+void oracle_c06_retry(World &w, const History &h)
+{
+  int nsrv = w.cfg->nservers;
+  for (auto &e : h)
+    if (e.k == EV_SETSERVERS && e.a == 4) nsrv = w.cfg->nservers + 1;
+  long bound = (long)nsrv * w.cfg->tries + 1 + 1 + 3;
+  std::map<unsigned, std::vector<int>> byq;
+  for (auto &t : w.txs)
+    if (t.q.ok) byq[t.q.id].push_back(t.id);
+  for (auto &kv : byq) {
+    if ((long)kv.second.size() > bound)
+      w.violate("C06:retry:too-many-transmissions", fmt("query id %u was transmitted %zu times; bound is servers(%d) x tries(%d) + 5 = %ld", kv.first, kv.second.size(), nsrv, w.cfg->tries, bound));
+    if (kv.second.size() > 1) w.W("c06_retransmission");
+    if ((long)kv.second.size() == bound - 5) w.W("c06_budget_exhausted");
+  }
+  bool advanced = false;
+  for (auto &e : h)
+    if (e.k == EV_ADVANCE) advanced = true;
+  // accepted samples per server (a learned timeout needs three)
+  int samples[8] = { 0 };
+  for (auto &p : w.packets)
+    if (p.t_accept >= 0 && p.src_server >= 0 && p.src_server < 8) samples[p.src_server]++;
+  bool learned = false;
+  for (int i = 0; i < 8; i++)
+    if (samples[i] >= 3) learned = true;
+  int64_t cap_ms   = w.cfg->maxtimeout_ms > 0 ? w.cfg->maxtimeout_ms : 5000;
+  int64_t lower_ms = std::min<int64_t>(learned ? std::min(250, w.cfg->timeout_ms) : w.cfg->timeout_ms, cap_ms);
+  for (auto &kv : byq) {
+    for (size_t i = 1; i < kv.second.size(); i++) {
+      const Transmission &t2 = w.txs[(size_t)kv.second[i]], &t1 = w.txs[(size_t)kv.second[i - 1]];
+      if (!t2.in_timer) continue; // resent for another reason (reply, connection error)
+      int64_t gap_ms = (t2.t_us - t1.t_us) / 1000;
+      if (gap_ms < lower_ms)
+        w.violate("C06:timeout:shorter-than-base", fmt("query id %u was re-sent after only %lld ms; configured base timeout %d ms, cap %lld ms", kv.first, (long long)gap_ms, w.cfg->timeout_ms, (long long)cap_ms));
+      if (w.cfg->maxtimeout_ms > 0 && !advanced && gap_ms > w.cfg->maxtimeout_ms)
+        w.violate("C06:timeout:longer-than-maximum", fmt("query id %u waited %lld ms for a retry; configured maximum is %d ms", kv.first, (long long)gap_ms, w.cfg->maxtimeout_ms));
+      w.W("c06_gap_checked");
+    }
+  }
+}
+
+// ---------------------------------------------------------------------------
+// C08: reference cache (only-if direction)
+// ---------------------------------------------------------------------------
+static void c08_check_token(World &w, const Token &t)
+{
+  if (t.count == 0 || t.req < 0) return;
+  const ReqSpec &r = (*w.reqs)[(size_t)t.req];
+  if (r.kind > 7 || r.kind == 6 || r.kind == 7) {
+    // addrinfo / hostent consumers are checked for TTLs only (below) when they hit
+  }
+  bool zero_tx = t.tx_at_done == t.tx_at_issue;
+  int  m       = !t.markers.empty() ? t.markers[0] : t.neg_marker;
+  const Packet *p = pkt(w, m);
+  if (!p) return; // nothing delivered that a packet carries (error status, hosts file, literal)
+  int64_t age_s = 0;
+  if (zero_tx) {
+    w.W("c08_cache_hit");
+    if (w.cfg->qcache_max_ttl == 0) {
+      w.violate("C08:cache:served-although-disabled", fmt("token %d was answered without traffic although the cache maximum is 0", t.id));
+      return;
+    }
+    if (p->forged || p->t_read < 0 || p->t_read > t.t_done) {
+      w.violate("C08:cache:entry-without-accepted-response", fmt("token %d served from packet #%d that was never accepted before", t.id, p->serial));
+      return;
+    }
+    // key: opcode (always QUERY) | RD | CD | type | class | lower-case name
+    std::vector<std::string> cands;
+    cands.push_back(norm_name(r.name));
+    for (auto &d : w.cfg->domains) cands.push_back(norm_name(r.name + "." + d));
+    bool name_ok = std::find(cands.begin(), cands.end(), p->qname_lc) != cands.end();
+    int  want_type = r.qtype;
+    bool type_ok = (r.kind == 6 || r.kind == 7) ? (p->qtype == vdns::T_A || p->qtype == vdns::T_AAAA) : (p->qtype == want_type);
+    if (r.kind == 8 || r.kind == 9) {
+      type_ok = p->qtype == vdns::T_PTR;
+      name_ok = true; // reverse name derived from the address
+    }
+    if (!name_ok || !type_ok || (r.kind <= 5 && p->qclass != r.qclass))
+      w.violate("C08:cache:key-mismatch", fmt("token %d (name %s type %d class %d) was served from the cached answer to %s type %d class %d", t.id, r.name.c_str(), r.qtype, r.qclass, p->qname_lc.c_str(), p->qtype, p->qclass));
+    if (r.kind == 0 && (p->rd != r.rd || p->cd != r.cd))
+      w.violate("C08:cache:flags-mismatch", fmt("token %d (rd=%d cd=%d) was served from an answer cached for rd=%d cd=%d", t.id, (int)r.rd, (int)r.cd, (int)p->rd, (int)p->cd));
+    if (p->tc) w.violate("C08:cache:truncated-response-replayed", fmt("token %d was served from truncated packet #%d", t.id, p->serial));
+    if (p->rcode != vdns::RC_NOERROR && p->rcode != vdns::RC_NXDOMAIN) w.violate("C08:cache:error-rcode-replayed", fmt("token %d was served from packet #%d with rcode %d", t.id, p->serial, p->rcode));
+    age_s            = t.t_done / 1000000 - p->t_read / 1000000;
+    int64_t lifetime = std::min<int64_t>(w.cfg->qcache_max_ttl, p->ttl);
+    if (age_s > lifetime)
+      w.violate("C08:cache:stale-entry-served", fmt("token %d was served from packet #%d cached %lld s ago; its lifetime is min(max_ttl %d, ttl %u) = %lld s", t.id, p->serial, (long long)age_s, w.cfg->qcache_max_ttl, p->ttl, (long long)lifetime));
+    for (int fe : w.flush_evs)
+      if (p->ev_read >= 0 && p->ev_read < fe && t.ev_issue > fe)
+        w.violate("C08:cache:served-after-flush", fmt("token %d was served from packet #%d accepted before a reinit / server-list change (event %d)", t.id, p->serial, fe));
+  }
+  // TTLs visible through the API = original - seconds spent cached (age 0 on a fresh answer)
+  if (!t.ttls.empty() && !p->forged) {
+    std::vector<uint32_t> want;
+    // what this reply kind carried (see World::build_reply)
+    switch (p->kind) {
+      case RK_DATA: case RK_CK_NONE: case RK_CK_VALID: case RK_CK_VALID2: want = { 100 }; break;
+      case RK_DATA_TTL5: want = { 5 }; break;
+      case RK_DATA_TTL0: want = { 0 }; break;
+      case RK_DATA_MULTI: want = { 100, 50, 7 }; break;
+      case RK_NODATA: case RK_NXDOMAIN: want = { 60 }; break;
+      default: return;
+    }
+    if (r.kind == 6 || r.kind == 7) return; // addrinfo merges two answers; checked by C13's family
+    if (want.size() != t.ttls.size()) return;
+    for (size_t i = 0; i < want.size(); i++) {
+      uint32_t exp = want[i] > (uint32_t)age_s ? want[i] - (uint32_t)age_s : 0;
+      if (t.ttls[i] != exp) {
+        w.violate(zero_tx ? "C08:cache:ttl-not-reduced-by-time-cached" : "C08:ttl:fresh-answer-ttl-altered",
+                  fmt("token %d (entry point kind %d): record %zu shows TTL %u, expected %u (original %u, %lld s in cache)", t.id, r.kind, i, t.ttls[i], exp, want[i], (long long)age_s));
+        break;
+      }
+    }
+    if (zero_tx && age_s > 0) w.W("c08_aged_hit_ttl_checked");
+  }
+}
 void oracle_c08_cache_step(World &, const History &, size_t) {}
-void oracle_c08_cache_end(World &, const History &) {}
+void oracle_c08_cache_end(World &w, const History &)
+{
+  for (auto &t : w.toks) c08_check_token(w, t);
+}
+
 void oracle_c09_failover(World &, const History &) {}
 void oracle_c12_search(World &, const History &) {}
 void oracle_c13_addrs(World &, const History &) {}
 void oracle_c17_cookie(World &, const History &) {}
 void oracle_c03_wire(World &, const History &) {}
-}
+
+} // namespace exa
